@@ -152,7 +152,11 @@ def closure(prog: Program, starts: Iterable[Tuple[FuncInfo, Optional[str]]], max
         selfname = f.params[0] if (f.cls is not None and f.params) else None
         for n in walk_local(f.node):
             if isinstance(n, ast.Call):
-                for t in resolve_call(prog, ctx, n):
+                ts = resolve_call(prog, ctx, n)
+                if not any(isinstance(t, FuncInfo) for t in ts) and isinstance(n.func, ast.Attribute) and n.func.attr.startswith("_") and n.func.attr.endswith("_") and not n.func.attr.startswith("__"):
+                    # protocol methods (_name_) called on a receiver of unknown type: class-hierarchy analysis by name
+                    ts = [c.methods[n.func.attr] for c in prog.classes.values() if n.func.attr in c.methods]
+                for t in ts:
                     if isinstance(t, FuncInfo):
                         if t.cls is not None and recv and t.cls.qual in prog.mro(recv):
                             work.append((t, recv))
